@@ -5,6 +5,14 @@
                                MAnyFn, MFunc, MRoot, MAttr, MAny, MAnyWP (shares MAny's case), MImm
      imm_excluded              step_ok (child): negb is_attr && negb is_root
      any_document_excluded_for body MAny tests negb is_root, body MAnyWP does not
+     root_types                the model has ONE root kind (KRoot); eFROM_ROOT accepts a document node and the
+                               root of a result tree fragment (DOCUMENT_FRAGMENT_NODE) for it.  The child-axis
+                               steps (MImm, MAny) must exclude the same node types for the model to speak about
+                               fragments as well (imm_excluded, root_types).  A source that excludes only
+                               DOCUMENT_NODE there (imm_excluded_documents_only, root_types_documents_only: the
+                               state before "fix: the root of a result tree fragment matched a child-axis step")
+                               is mirrored by the model for source documents only; props/C09.py judges fragments
+                               by its own in-stylesheet oracle (fragment stream), which fires on that source
      left_check_skipped_after  any_like: compile's left_check is None after MAny | MAnyWP | MAnyFn, else the
                                closure re-entering step_pattern on the steps to the left
                                (GenPat.any_checks_left, stop_ends_pattern); body MRoot accepts the root only
@@ -18,7 +26,10 @@ Open Scope string_scope.
 Definition modelled_cases : list string :=
   ["eMATCH_ANY_ANCESTOR_WITH_FUNCTION_CALL"; "eOP_FUNCTION"; "eFROM_ROOT"; "eMATCH_ATTRIBUTE";
    "eMATCH_ANY_ANCESTOR"; "eMATCH_ANY_ANCESTOR_WITH_PREDICATE"; "eMATCH_IMMEDIATE_ANCESTOR"].
-Definition imm_excluded : list string := ["ATTRIBUTE_NODE"; "DOCUMENT_NODE"].
+Definition root_types : list string := ["DOCUMENT_FRAGMENT_NODE"; "DOCUMENT_NODE"].
+Definition root_types_documents_only : list string := ["DOCUMENT_NODE"].
+Definition imm_excluded : list string := "ATTRIBUTE_NODE" :: root_types.
+Definition imm_excluded_documents_only : list string := "ATTRIBUTE_NODE" :: root_types_documents_only.
 Definition any_shared : list string := ["eMATCH_ANY_ANCESTOR"; "eMATCH_ANY_ANCESTOR_WITH_PREDICATE"].
 Definition any_document_excluded : list string := ["eMATCH_ANY_ANCESTOR"].
 Definition left_any_like : list string :=
